@@ -514,6 +514,22 @@ class _ExprCanon(ast.NodeTransformer):
             new = ast.Call(func=ast.Attribute(value=ast.Name(id="torch", ctx=ast.Load()), attr="clamp", ctx=ast.Load()), args=[cm_[0]],
                            keywords=[ast.keyword(arg="min" if cm_[2] == "clamp_min" else "max", value=cm_[1])])
             return ast.copy_location(new, node)
+        # fused forms: addcmul(a, b, c, value=v) = a + v*b*c; addcdiv(a, b, c, value=v) = a + v*b/c; lerp(a, b, w) = a + w*(b - a)
+        fz_ = None
+        if fn in ("torch.addcmul", "torch.addcdiv", "torch.lerp") and len(node.args) == 3 and not any(isinstance(a, ast.Starred) for a in node.args):
+            fz_ = (f.attr, list(node.args))
+        elif isinstance(f, ast.Attribute) and f.attr in ("addcmul", "addcdiv", "lerp") and len(node.args) == 2 \
+                and not (isinstance(f.value, ast.Name) and f.value.id in ("torch", "np", "numpy")) and not any(isinstance(a, ast.Starred) for a in node.args):
+            fz_ = (f.attr, [f.value] + list(node.args))
+        if fz_ is not None and {k.arg for k in node.keywords} <= ({"value"} if fz_[0] != "lerp" else set()):
+            a_, b_, c_ = fz_[1]
+            if fz_[0] == "lerp":
+                prod_ = ast.BinOp(left=c_, op=ast.Mult(), right=ast.BinOp(left=b_, op=ast.Sub(), right=a_))
+            else:
+                prod_ = ast.BinOp(left=b_, op=ast.Mult() if fz_[0] == "addcmul" else ast.Div(), right=c_)
+                if node.keywords:
+                    prod_ = ast.BinOp(left=node.keywords[0].value, op=ast.Mult(), right=prod_)
+            return ast.copy_location(ast.BinOp(left=a_, op=ast.Add(), right=prod_), node)
         if fn == "torch.flatten" and len(node.args) == 1 and not node.keywords:
             return ast.copy_location(_mcall(node.args[0], "reshape", ast.UnaryOp(op=ast.USub(), operand=ast.Constant(1))), node)
         if fn in ("torch.autograd.grad", "autograd.grad") and node.args:
@@ -570,6 +586,110 @@ class _ExprCanon(ast.NodeTransformer):
                                    args=[f.value] + list(node.args), keywords=node.keywords)
                     return ast.copy_location(new, node)
         return node
+
+
+def _enumerate_ranges(tree):
+    """`for j, i in enumerate(range(lo, hi, step)): BODY`  ->  `for i in range(lo, hi, step): j = i // step - lo // step; BODY` for integer
+    constants lo >= 0, step > 0 (i runs over lo, lo + step, ..: its position in the range is (i - lo) / step = i // step - lo // step)."""
+    for loop in ast.walk(tree):
+        if not (isinstance(loop, ast.For) and isinstance(loop.target, ast.Tuple) and len(loop.target.elts) == 2
+                and all(isinstance(t, ast.Name) for t in loop.target.elts) and isinstance(loop.iter, ast.Call)
+                and isinstance(loop.iter.func, ast.Name) and loop.iter.func.id == "enumerate" and len(loop.iter.args) == 1 and not loop.iter.keywords):
+            continue
+        rg = loop.iter.args[0]
+        if not (isinstance(rg, ast.Call) and isinstance(rg.func, ast.Name) and rg.func.id == "range" and 1 <= len(rg.args) <= 3 and not rg.keywords):
+            continue
+        lo = rg.args[0] if len(rg.args) >= 2 else ast.Constant(value=0)
+        step = rg.args[2] if len(rg.args) == 3 else ast.Constant(value=1)
+        if not (isinstance(lo, ast.Constant) and isinstance(lo.value, int) and lo.value >= 0 and isinstance(step, ast.Constant)
+                and isinstance(step.value, int) and step.value > 0):
+            continue
+        j, i = loop.target.elts
+        if any(isinstance(n, ast.Name) and isinstance(n.ctx, ast.Store) and n.id in (i.id, j.id) for st in loop.body for n in ast.walk(st)):
+            continue
+        pos = ast.Name(id=i.id, ctx=ast.Load())
+        if step.value != 1:
+            pos = ast.BinOp(left=pos, op=ast.FloorDiv(), right=ast.Constant(value=step.value))
+        off = lo.value // step.value
+        if off:
+            pos = ast.BinOp(left=pos, op=ast.Sub(), right=ast.Constant(value=off))
+        loop.target = ast.copy_location(ast.Name(id=i.id, ctx=ast.Store()), loop.target)
+        loop.iter = rg
+        loop.body = [ast.copy_location(ast.Assign(targets=[ast.Name(id=j.id, ctx=ast.Store())], value=pos), loop)] + list(loop.body)
+        ast.fix_missing_locations(loop)
+    return tree
+
+
+def _peel_iterators(tree):
+    """`it = zip(A, B)` / `it = iter(A)`; `a, b = next(it)` (k times); `for x, y in it:`  ->  `a, b = A[0], B[0]`; ...;
+    `for x, y in zip(A[k:], B[k:]):` when `it` has no other use, the statements are in one block and the sequences are plain names
+    that are not re-bound in between.  (Consuming an iterator with `next` and then a loop visits the same elements as indexing and
+    slicing for sequences and tensors.)"""
+    for owner in ast.walk(tree):
+        if not isinstance(owner, (ast.FunctionDef, ast.AsyncFunctionDef)):
+            continue
+        for blk_owner in ast.walk(owner):
+            for fld in ("body", "orelse", "finalbody"):
+                b = getattr(blk_owner, fld, None)
+                if not (isinstance(b, list) and b and isinstance(b[0], ast.stmt)):
+                    continue
+                for i, st in enumerate(b):
+                    if not (isinstance(st, ast.Assign) and len(st.targets) == 1 and isinstance(st.targets[0], ast.Name)
+                            and isinstance(st.value, ast.Call) and isinstance(st.value.func, ast.Name) and st.value.func.id in ("zip", "iter")
+                            and not st.value.keywords and st.value.args and all(isinstance(a, ast.Name) for a in st.value.args)):
+                        continue
+                    if st.value.func.id == "iter" and len(st.value.args) != 1:
+                        continue
+                    it = st.targets[0].id
+                    seqs = [a.id for a in st.value.args]
+                    uses = [n for n in ast.walk(owner) if isinstance(n, ast.Name) and n.id == it]
+                    k = 0
+                    plan = []
+                    ok = True
+                    loop_at = None
+                    for j in range(i + 1, len(b)):
+                        t = b[j]
+                        mentions = [n for n in ast.walk(t) if isinstance(n, ast.Name) and n.id == it]
+                        rebinds = [n for n in ast.walk(t) if isinstance(n, ast.Name) and isinstance(n.ctx, ast.Store) and n.id in seqs]
+                        if rebinds and not mentions:
+                            ok = False
+                            break
+                        if not mentions:
+                            continue
+                        if isinstance(t, ast.Assign) and len(t.targets) == 1 and isinstance(t.value, ast.Call) and isinstance(t.value.func, ast.Name) \
+                                and t.value.func.id == "next" and len(t.value.args) == 1 and isinstance(t.value.args[0], ast.Name) and len(mentions) == 1:
+                            plan.append((j, k))
+                            k += 1
+                            continue
+                        if isinstance(t, ast.For) and isinstance(t.iter, ast.Name) and t.iter.id == it and len(mentions) == 1 and not t.orelse:
+                            loop_at = j
+                            break
+                        ok = False
+                        break
+                    if not ok or loop_at is None or len(uses) != 1 + len(plan) + 1:
+                        continue
+
+                    def item(name, kk, like):
+                        return ast.copy_location(ast.Subscript(value=ast.Name(id=name, ctx=ast.Load()), slice=ast.Constant(value=kk), ctx=ast.Load()), like)
+
+                    def tail(name, kk, like):
+                        return ast.copy_location(ast.Subscript(value=ast.Name(id=name, ctx=ast.Load()), slice=ast.Slice(lower=ast.Constant(value=kk), upper=None, step=None), ctx=ast.Load()), like)
+
+                    is_zip = st.value.func.id == "zip"
+                    for j, kk in plan:
+                        t = b[j]
+                        t.value = ast.copy_location(ast.Tuple(elts=[item(s_, kk, t) for s_ in seqs], ctx=ast.Load()), t) if is_zip else item(seqs[0], kk, t)
+                    lp = b[loop_at]
+                    if is_zip:
+                        lp.iter = ast.copy_location(ast.Call(func=ast.Name(id="zip", ctx=ast.Load()), args=[tail(s_, k, lp) if k else ast.Name(id=s_, ctx=ast.Load()) for s_ in seqs], keywords=[]), lp)
+                    else:
+                        lp.iter = tail(seqs[0], k, lp) if k else ast.copy_location(ast.Name(id=seqs[0], ctx=ast.Load()), lp)
+                    b[i] = ast.copy_location(ast.Pass(), st)
+                    if len(b) > 1:
+                        del b[i]
+                    ast.fix_missing_locations(owner)
+                    break
+    return tree
 
 
 def _split_tuple_assigns(tree):
@@ -734,6 +854,8 @@ def _unroll_constant_tables(tree):
                 return ast.copy_location(_copy.deepcopy(self.mapping[node.id]), node)
             return node
 
+    remote_dead = []
+
     def local_stores(fn):
         return {n.id for n in ast.walk(fn) if isinstance(n, ast.Name) and isinstance(n.ctx, ast.Store)} | {a.arg for a in ast.walk(fn) if isinstance(a, ast.arg)}
 
@@ -758,6 +880,12 @@ def _unroll_constant_tables(tree):
                     and not any(isinstance(n, ast.Name) and n.id in tnames and isinstance(n.ctx, (ast.Store, ast.Del)) for n in inner)
                 if simple and fn is not None:
                     inside = {id(n) for n in ast.walk(st)}
+                    # occurrences inside another loop that binds the same names itself never see this loop's last values
+                    for f2 in ast.walk(fn):
+                        if isinstance(f2, ast.For) and f2 is not st and id(f2) not in inside:
+                            t2 = {n.id for n in ast.walk(f2.target) if isinstance(n, ast.Name)}
+                            if set(tnames) <= t2:
+                                inside |= {id(n) for n in ast.walk(f2.target)} | {id(n) for b in f2.body for n in ast.walk(b)}
                     simple = not any(isinstance(n, ast.Name) and n.id in tnames and id(n) not in inside for n in ast.walk(fn))
                 if simple:
                     ok_rows = all(isinstance(st.target, ast.Name) or (isinstance(r, (ast.Tuple, ast.List)) and len(r.elts) == len(tnames)) for r in rows)
@@ -775,7 +903,10 @@ def _unroll_constant_tables(tree):
                                     x.lineno, x.col_offset = st.lineno, st.col_offset
                                     x.end_lineno, x.end_col_offset = getattr(st, "end_lineno", st.lineno), getattr(st, "end_col_offset", st.col_offset)
                         if local_tbl is not None and local_tbl[1] is not None:
-                            out.remove(local_tbl[1])       # the table's only reader was this loop
+                            if local_tbl[1] in out:
+                                out.remove(local_tbl[1])       # the table's only reader was this loop
+                            else:
+                                remote_dead.append(local_tbl[1])
                         out.extend(new)
                         continue
             out.append(st)
@@ -797,6 +928,36 @@ def _unroll_constant_tables(tree):
             uses = [n for n in ast.walk(fn) if isinstance(n, ast.Name) and n.id == nm]
             if len(uses) == 2:
                 lit, dst = before[-1].value, before[-1]
+        if lit is None and isinstance(loop.iter, ast.Name):
+            # the table is defined earlier in the function (e.g. before an enclosing loop): one definition, this loop its only reader, and
+            # nothing the rows mention is written after the definition
+            nm = loop.iter.id
+            uses = [n for n in ast.walk(fn) if isinstance(n, ast.Name) and n.id == nm]
+            defs_ = [a for a in ast.walk(fn) if isinstance(a, ast.Assign) and len(a.targets) == 1 and isinstance(a.targets[0], ast.Name) and a.targets[0].id == nm
+                     and isinstance(a.value, (ast.Tuple, ast.List))]
+            if len(uses) == 2 and len(defs_) == 1 and defs_[0] in fn.body and defs_[0].lineno < loop.lineno:
+                d_ = defs_[0]
+                rn_ = {n.id for n in ast.walk(d_.value) if isinstance(n, ast.Name)}
+                later = [x for x in fn.body[fn.body.index(d_) + 1:]]
+                clean = True
+                for x in later:
+                    for n in ast.walk(x):
+                        if isinstance(n, ast.Name) and n.id in rn_ and isinstance(n.ctx, (ast.Store, ast.Del)):
+                            clean = False
+                        if isinstance(n, (ast.Subscript, ast.Attribute)) and isinstance(n.ctx, ast.Store):
+                            r_ = n
+                            while isinstance(r_, (ast.Subscript, ast.Attribute)):
+                                r_ = r_.value
+                            if isinstance(r_, ast.Name) and r_.id in rn_:
+                                clean = False
+                        if isinstance(n, ast.Call) and isinstance(n.func, ast.Attribute) and n.func.attr.endswith("_") and not n.func.attr.startswith("_"):
+                            r_ = n.func.value
+                            while isinstance(r_, (ast.Subscript, ast.Attribute)):
+                                r_ = r_.value
+                            if isinstance(r_, ast.Name) and r_.id in rn_:
+                                clean = False
+                if clean:
+                    lit, dst = d_.value, d_
         if lit is None or not (0 < len(lit.elts) <= 8) or any(isinstance(r, ast.Starred) for r in lit.elts) or not _pure(lit):
             return None
         if _const_value(lit) is not _const_value:
@@ -823,7 +984,9 @@ def _unroll_constant_tables(tree):
     if True:
         for fn in [n for n in ast.walk(tree) if isinstance(n, (ast.FunctionDef, ast.AsyncFunctionDef))]:
             loc = local_stores(fn)
+            del remote_dead[:]
             fn.body = unroll_block(fn.body, {t for t in tables if t in loc}, fn)
+            fn.body = [x for x in fn.body if not any(x is d_ for d_ in remote_dead)] or [ast.Pass()]
     return Attr().visit(tree)
 
 
@@ -1054,6 +1217,7 @@ def normal_form(tree):
     tree = _strip_local_annotations(tree)
     tree = _inplace_methods(tree)
     tree = _unroll_constant_tables(tree)
+    tree = _enumerate_ranges(_peel_iterators(tree))
     tree = ast.fix_missing_locations(_split_tuple_assigns(_ExprCanon().visit(tree)))
     tree = _forelse_to_flag(tree)
     tree = _loop_returns_to_flag(tree)
